@@ -24,7 +24,7 @@ def run(tier, seed, t0):
     sev, ssum, smeta, mcm = sc.replay(PID, tier, seed)
     nrel = oc.classify_rel(v, events + sev, only=lambda e: is_coll(e["A"]) or is_coll(e["B"]))
     for e in sev:
-        if e["op"] == "session" and e["what"] in ("state", "empty", "rect", "npoints", "search") and (e["what"] == "search" or sc.is_coll_tree(e.get("tree"))):
+        if e["op"] == "session" and e["what"] in ("state", "empty", "rect", "npoints", "search", "fatal") and (e["what"] in ("search", "fatal") or sc.is_coll_tree(e.get("tree"))):
             v.violation({"property": PID, "event": e, "what": "session step %d (%s): %s of the object at key %s: got %s, the specification says %s" % (
                 e["step"], e["history"][-1], e["what"], e.get("key"), json.dumps(e.get("got"))[:300], json.dumps(e.get("exp"))[:300])})
     facts = [e for e in events if e["op"] == "fact"]
